@@ -930,7 +930,7 @@ fn main() {
             if !matches!(ended, Ended::Exit(0, _)) {
                 rep.violation("process died or hung while running the hand-written corpus", "crash corpus", json!({"ended": format!("{ended:?}")}));
             }
-            let n: u64 = if thorough { 12_000 } else if args.get(3).map(|s| s == "search").unwrap_or(false) { 3_000 } else { 500 };
+            let n: u64 = if thorough { 12_000 } else if args.get(3).map(|s| s == "search").unwrap_or(false) { 3_000 } else { 1_500 };
             let (mut from, mut crashes) = (0u64, 0u32);
             while from < n && crashes < 4 {
                 let cnt = 50.min(n - from);
